@@ -209,3 +209,31 @@ pub fn rotating_channel(cfg: &Cfg, i: usize) -> u8 {
     }
     c[i % 16]
 }
+
+/// Spec-derived dictionary: parameter-number bytes and data values that the MIDI specifications
+/// single out (RPN 0-6: pitch bend sensitivity, fine/coarse tuning, tuning program/bank,
+/// modulation depth, MPE configuration; 0x3D xx: 3D sound; 127/127: null; values 0, 64, 100,
+/// 127, small zone sizes ...). Implementations special-case such constants, so value-abstracted
+/// explorers and random generators draw from this dictionary in addition to arbitrary values.
+pub const DICT_PAIRS: [[u8; 2]; 12] = [
+    [0, 6], [0, 3], [0, 2], [0, 4], [0, 5], [127, 0], [0x3D, 0], [0, 64], [0, 100], [0, 12], [2, 1], [0, 15],
+];
+pub const DICT_VALUES: [u8; 24] = [0, 1, 2, 3, 4, 5, 6, 7, 8, 12, 15, 16, 24, 32, 38, 48, 63, 64, 65, 96, 100, 120, 126, 127];
+pub const DICT_NUMBER_BYTES: [u8; 12] = [0, 1, 2, 3, 4, 5, 6, 7, 8, 0x3D, 126, 127];
+
+/// dictionary pairs for explorer runs: the first `always` entries every time, the rest rotate
+/// with the seed (quick: `extra` of them; thorough: all)
+pub fn dict_pairs(cfg: &Cfg, always: usize, extra: usize) -> Vec<[u8; 2]> {
+    if cfg.as_c18 {
+        return vec![];
+    }
+    if cfg.thorough {
+        return DICT_PAIRS.to_vec();
+    }
+    let mut v: Vec<[u8; 2]> = DICT_PAIRS[..always].to_vec();
+    let rest = &DICT_PAIRS[always..];
+    for k in 0..extra {
+        v.push(rest[(cfg.seed as usize * 3 + k) % rest.len()]);
+    }
+    v
+}
